@@ -107,6 +107,8 @@ Proof.
   - destruct (drain_spec fuel st Hi Hf) as (H1 & H2 & H3). destruct (drain_via next fuel st); cbn [fst snd] in *.
     subst. auto.
   - rewrite (Hlen st Hi). auto.
+  - destruct (Hnext st Hi) as (H1 & H2 & H3). destruct (next st) as [o st']; cbn [fst snd] in *.
+    rewrite (Hlen st' H3), H2. subst. auto.
 Qed.
 
 (* any script *)
